@@ -53,7 +53,15 @@ def _fail(**kw) -> bool:
     return False
 
 
-def _build(seq: str, pos: List[int], glob: bool, iv: Optional[Tuple[int, int, bool]], iv2=None):
+GLOB_KINDS = ("nterm", "cterm", "labile", "static", "isotope", "unknown", "charge", "adducts")
+
+
+def _has(glob, kind: str) -> bool:
+    # an adduct list is only written together with a charge ('/2[+2Na+]'): the single kind "adducts" brings the charge along
+    return glob is True or glob == kind or (kind == "charge" and glob == "adducts")
+
+
+def _build(seq: str, pos: List[int], glob, iv: Optional[Tuple[int, int, bool]], iv2=None):
     kw: Dict[str, Any] = {}
     if pos:
         im: Dict[int, List[Mod]] = {}
@@ -67,9 +75,24 @@ def _build(seq: str, pos: List[int], glob: bool, iv: Optional[Tuple[int, int, bo
         ivs.append(Interval(iv2[0], iv2[1], iv2[2], None))
     if ivs:
         kw["intervals"] = ivs
-    if glob:
-        kw.update(nterm_mods=[Mod("nt", 1)], cterm_mods=[Mod("ct", 2)], labile_mods=[Mod("lab", 1)], static_mods=[Mod("[st]@" + seq[0], 1)],
-                  isotope_mods=[Mod("13C", 1)], unknown_mods=[Mod("unk", 1)], charge=2, charge_adducts=[Mod("+2Na+", 1)])
+    # glob: False = none of the global / terminal kinds, True = all of them, a kind's name = that kind alone (a peptide whose
+    # only annotation is, say, a static rule or a charge takes the library's "unmodified" shortcuts unless every has_*() is asked)
+    if _has(glob, "nterm"):
+        kw["nterm_mods"] = [Mod("nt", 1)]
+    if _has(glob, "cterm"):
+        kw["cterm_mods"] = [Mod("ct", 2)]
+    if _has(glob, "labile"):
+        kw["labile_mods"] = [Mod("lab", 1)]
+    if _has(glob, "static"):
+        kw["static_mods"] = [Mod("[st]@" + seq[0], 1)]
+    if _has(glob, "isotope"):
+        kw["isotope_mods"] = [Mod("13C", 1)]
+    if _has(glob, "unknown"):
+        kw["unknown_mods"] = [Mod("unk", 1)]
+    if _has(glob, "charge"):
+        kw["charge"] = 2
+    if _has(glob, "adducts"):
+        kw["charge_adducts"] = [Mod("+2Na+", 1)]
     return create_annotation(seq, **kw)
 
 
@@ -84,11 +107,13 @@ def _residues(seq: str, pos: List[int]) -> List[Tuple[str, List[Tuple[str, int]]
 def _expect(seq_res, glob: bool, ivs, seq0: str, swap: bool = False):
     seq = "".join(c for c, _ in seq_res)
     internal = [(i, ms) for i, (_, ms) in enumerate(seq_res) if ms]
-    nt, ct = ([("nt", 1)], [("ct", 2)]) if glob else (None, None)
+    nt = [("nt", 1)] if _has(glob, "nterm") else None
+    ct = [("ct", 2)] if _has(glob, "cterm") else None
     if swap:
         nt, ct = ct, nt
-    return (seq, [("13C", 1)] if glob else None, [("[st]@" + seq0[0], 1)] if glob else None, [("lab", 1)] if glob else None,
-            [("unk", 1)] if glob else None, nt, ct, internal or None, ivs, 2 if glob else None, [("+2Na+", 1)] if glob else None)
+    return (seq, [("13C", 1)] if _has(glob, "isotope") else None, [("[st]@" + seq0[0], 1)] if _has(glob, "static") else None,
+            [("lab", 1)] if _has(glob, "labile") else None, [("unk", 1)] if _has(glob, "unknown") else None, nt, ct, internal or None, ivs,
+            2 if _has(glob, "charge") else None, [("+2Na+", 1)] if _has(glob, "adducts") else None)
 
 
 def _cmp(got_ann, want, what: str) -> bool:
